@@ -38,16 +38,16 @@ CHECKS = {
                 text='Every command (Continue with args/kwargs, Wait+resume value, Stop, UnsuccessfulResult, Kill, raise) in chains of <=3 steps; the continuation records what it received.',
                 ref='5 C13', note=CORE_NOTE),
     'C07': dict(engine='ProcessCore', technique='TLA+ ProcessCore Persist/Restore (C07_SaveLoadSave) + Outline SaveStepper/LoadStepper (C08_RoundTrip), TLC enumerates every save point; each exercised on real Bundle through copy/pickle/YAML',
-                text='Every state entry and paused point of every program and sampled outline is a save point; bundle -> medium -> unbundle -> bundle compared key by key; loaded process accessors compared with the original and with the specification state after Restore.',
+                text='Every state entry and paused point of every program and sampled outline, the terminated process, and a process whose future was cancelled, is a save point; default, custom and alternating object loaders through one shared load context; checkpoints also kept by the two persisters with the instance abandoned later; bundle -> medium -> unbundle -> bundle compared key by key; loaded process accessors compared with the original and with the specification state after Restore.',
                 ref='5 C07', note=CORE_NOTE + ' TLA+ does not model pickle/YAML: medium fidelity is established only for the bundles of the enumerated points.'),
     'C08': dict(engine='ProcessCore+Outline', technique='TLA+ ProcessCore save/restore actions (C08_Equivalent vs reference run) + Outline CrashRestore (C09_Finished under crash sets), TLC exhaustive + replay with real Bundle/unbundle in fresh loops',
                 text='Every placement of <=K save/restore/resume actions and checkpoints at the k-th state entry for process programs; every crash set of <=M unit boundaries for every (outline, oracle); executed steps, outputs, ctx trace, final state and result equal the uninterrupted run.',
                 ref='5 C08', note=CORE_NOTE),
     'C09': dict(engine='Outline', technique='TLA+ Outline: stepper tree small-step (mirrors workchains.py) refines BigStep structured semantics, TLC on every outline x oracle; each instance run on a generated real WorkChain',
-                text='Every outline with <=N nodes nested <=D x every predicate oracle; ordered call trace per RUNNING state and result() equal the TLA+ values.',
+                text='Every outline with <=N nodes nested <=D x every predicate oracle x steps that hand an awaitable to the context (by to_context or in the returned ToContext) and return any value; ordered call trace per RUNNING state, which units end in a Wait, and result() equal the TLA+ values.',
                 ref='5 C09', note='Trusted base: TLC, harness/outline_real.py (class generator, unit-by-unit runner).'),
     'C10': dict(engine='ProcessCore', technique='TLA+ ProcessCore awaitables extension (workchains.Waiting enter/exit/_awaitable_done), TLC exhaustive (C10_Barrier, C10_FailureStops) + replay on real WorkChains with futures and launched children',
-                text='<=3 awaited items x registration way x outcome {ok, fails, killed} x every completion order and grouping into loop iterations x pause/play/kill placements; the step after the barrier records which futures are done and the ctx.',
+                text='<=3 awaited items x registration way x outcome {ok, fails, killed} x every completion order and grouping into loop iterations x pause/play/kill placements (also a pause issued while the workchain enters WAITING); the step after the barrier records which futures are done and the ctx; plus the barrier inside if_/while_ bodies (module Outline: units ending in a Wait).',
                 ref='5 C10', note=CORE_NOTE),
     'C11': dict(engine='Ports', technique='TLA+ Ports: operational PreProcess/Validate/ValidatePorts/ValidateDynamicPorts/OnCreate (mirror of ports.py, processes.py) vs declarative Completed/Accepts, TLC on every (tree, input) instance; every instance constructed on a fresh real Process subclass',
                 text='Port trees with all attribute combinations for one port and small variants up to 3 (4 thorough) ports x every nested input over {absent, 0, -1, "s", "", {}, nested dicts}; constructor raise/no raise, inputs leaf for leaf, read-only at every declared level, raw_inputs and the caller dict unchanged.',
@@ -65,7 +65,7 @@ CHECKS = {
                 text='Source trees with <=4 (5 thorough) ports and string-prefix name pairs x every include/exclude antichain x target namespaces x namespace_options; destination tree, descriptions, exposed-port memory and aliasing compared with the TLA+ result; every single mutation of either side checked for independence.',
                 ref='5 C15', note='Trusted base: TLC, harness/expose_real.py. Namespace defaults that are mutable objects mutated in place, and non-atomic refusals, are outside the universe (stated in the evidence).'),
     'C16': dict(engine='ProcessCore', technique='TLA+ ProcessCore comms extension (message_receive/broadcast_receive/_schedule_rpc reply tasks, state_changed announcements) + ProcessFaults twin for broadcast failures, TLC exhaustive + replay through an in-process communicator',
-                text='Every sequence of <=K RPC/broadcast control messages (also mixed with direct calls) between any two callbacks: state, replies and event log equal the specification in which the handler applies the direct-call operator; announcements once and in order; tolerated broadcast failures leave the run identical to a fault-free twin; unsubscribed after termination.',
+                text='Every sequence of <=K RPC/broadcast control messages (also mixed with direct calls) between any two callbacks: state, replies and event log equal the specification in which the handler applies the direct-call operator; announcements once and in order; tolerated broadcast failures leave the run identical to a fault-free twin; unsubscribed after termination; the two subscriptions made at construction fail independently (time-out tolerated, anything else propagates); a process closed by hand keeps announcing the transitions it still makes.',
                 ref='5 C16', note=CORE_NOTE + ' RabbitMQ is replaced by an in-process kiwipy.LocalCommunicator subclass.'),
     'C17': dict(engine='Launcher', technique='TLA+ Launcher: operational mirror of ProcessLauncher.__call__/_launch/_continue/_create over an abstract persister, 8 invariants + 7 action properties (CreateOK, LaunchOK, ContinueOK, NowaitReply, RejectOK, LoaderUsed ...), TLC over every history of <=K tasks; every behaviour replayed on the real launcher (direct and through controllers + LoopCommunicator)',
                 text='Histories of <=2 (3 thorough) create/launch/continue/unknown tasks x persist x nowait x tag x 3 process classes x {no, in-memory, pickle} persister x {default, custom} loader; replies, persister content, constructed processes and their step traces, loader resolutions compared after every action.',
@@ -74,7 +74,7 @@ CHECKS = {
                 text='<=2 (3-5 thorough) processes with <=2 await points, a launched child, call_soon callbacks, control calls, re-entrant execute; Process.current() sampled in step bodies, 16 lifecycle hooks, listeners and callbacks, plus an observer between handles.',
                 ref='5 C18', note='Trusted base: TLC, harness/scope_real.py, nest_asyncio 1.6 batch semantics for the idle mode.'),
     'C20': dict(engine='Adapters', technique='TLA+ Adapters (futures, ready queue, synchronous kiwipy callbacks), TLC exhaustive (Faithful, ExactlyOnce, ActionOnce, Stable) + replay of every behaviour on the real adapters + validation of message_receive traces',
-                text='Chains of futures resolving to futures to depth 2 (4 thorough), every outcome at every level in every completion order, for create_task, plum_to_kiwi_future, unwrap_kiwi_future, their composition, convert_to_comm, _schedule_rpc replies and CancellableAction histories.',
+                text='Chains of futures resolving to futures to depth 2 (4 thorough), every outcome at every level in every completion order, for create_task, plum_to_kiwi_future, unwrap_kiwi_future, their composition, convert_to_comm (RPC subscribers; filtered broadcast subscribers called by position or keyword), _schedule_rpc replies and CancellableAction histories (also functions that cancel their own action); the caller on another event loop than the target.',
                 ref='5 C20', note='Trusted base: TLC, harness/vloop.py, harness/adapters_real.py. Real cross-thread delivery is not explored.'),
 }
 
